@@ -750,13 +750,24 @@ class TwoFieldOp(FieldMethod):
         out += [{'ndim': 2, 'nvdim': 3, 'other': 'field_other_mesh'}, {'ndim': 2, 'nvdim': 3, 'other': 'number' if s.meth != '__lshift__' else 'str'}]
         if s.meth in ('cross', '__and__'):
             out = [c for c in out if c['nvdim'] == 3]
+        if s.meth == '__lshift__':
+            # both operands carry a (different) component-to-axis mapping: the result gets the union, the operands keep theirs
+            out.append({'ndim': 3, 'nvdim': 2, 'other': 'field_mapped'})
         return out
+
+    def make_field(s, E, cfg, **kw):
+        if cfg.get('other') == 'field_mapped':
+            return sym_field(E, cfg['ndim'], 2, unit='T', vdims=['p', 'q'], mapping={'p': DIMS[0], 'q': DIMS[1]}, **kw)
+        return FieldMethod.make_field(s, E, cfg, **kw)
 
     def make_args(s, E, cfg, f, assume):
         d, nv, ok = cfg['ndim'], cfg['nvdim'], cfg['other']
         mesh = f.attrs['_mesh']
         if ok == 'field':
             g, _ = sym_field(E, d, nv, prefix='g', mesh=mesh, assume=assume, vdims=(['u', 'v', 'w', 't'][:nv] if nv > 1 else None), mapping={})
+            return [g], {}
+        if ok == 'field_mapped':
+            g, _ = sym_field(E, d, 1, prefix='g', mesh=mesh, assume=assume, vdims=['w'], mapping={'w': DIMS[2]})
             return [g], {}
         if ok == 'field_other_mesh':
             g, _ = sym_field(E, d, nv, prefix='g', assume=assume)
@@ -813,6 +824,11 @@ class TwoFieldOp(FieldMethod):
                 out.append((f'stacked[idx,{nv + l}] == other[idx,{l}]', R(res.at(E, cell + [nv + l])) == R(Bv(l))))
             if isinstance(o, Obj) and f.attrs['_vdims'] is not None and o.attrs['_vdims'] is not None:
                 out.append(('labels: concatenation when unique', _eq(E, result.attrs['_vdims'], f.attrs['_vdims'] + o.attrs['_vdims'])))
+            if st.cfg.get('other') == 'field_mapped':
+                want = dict(f.attrs['_vdim_mapping'])
+                want.update(o.attrs['_vdim_mapping'])
+                out.append(('mapping: union of the operand mappings when it covers every component', result.attrs['_vdim_mapping'] == want))
+                out.append(("the result's mapping is its own dict (not an operand's)", result.attrs['_vdim_mapping'] is not f.attrs['_vdim_mapping'] and result.attrs['_vdim_mapping'] is not o.attrs['_vdim_mapping']))
         wv = s.V(E, f, cell)
         if isinstance(o, Obj):
             wv = z3.And(wv, s.V(E, o, cell))
